@@ -14,7 +14,7 @@ applied=0
 if git -C "$wt" apply "$patch" 2>/dev/null; then applied=1
 elif git -C "$wt" apply --3way "$patch" 2>/dev/null; then applied=1
 else
-  git -C "$wt" checkout -q -- . 2>/dev/null
+  git -C "$wt" reset -q --hard 2>/dev/null; git -C "$wt" clean -fdq 2>/dev/null
   for alt in "$(dirname "$patch")"/patch-head.diff "$(dirname "$patch")"/patch.rebased*.diff; do
     [ -f "$alt" ] && git -C "$wt" apply "$alt" 2>/dev/null && { applied=1; break; }
   done
